@@ -14,6 +14,8 @@ var numericPool = []string{
 	"0", "7", "42", "007", "00", "000", "01", "0123", "10", "100", "1.", ".5", "1.5", "1.50", "0.5", "0.0", "00.5", "01.5", "0.", "-3", "+3", "-0", "-0.5", "- 3",
 	"1e5", "1E5", "1e+5", "1e-5", "1e", "e5", "1.5e3", "123456789012345678901234567890", "0.000000000000000000001", "9223372036854775808",
 	"18446744073709551616", "1.2.3", "1..2", ".", "-", "+", "--1", "1-", "0x10", "0b1", "0o7", "1_000", "1,000", " 1", "1 ", "1\n", "\t1",
+	// decimals a float64 cannot hold exactly (nanosecond timestamps, long fractions, integers past 2^53 written with a point)
+	"1700000000.123456789", "1700000000.123456788", "9007199254740993.0", "0.1234567890123456789", "123456789012345678.5", "3.141592653589793238", "0.10000000000000001", "99999999999999999.99",
 	"Infinity", "-Infinity", "NaN", "nan", "inf", "١٢٣", "１２", "1/2", "1a", "a1", "0 0", "3.14159", "200", "404", "1024", "00000000000000000000000000000001",
 }
 
